@@ -818,3 +818,35 @@ fire("c03-merge-transforms-outermost-first", ["C03", "C08"], "flowjax/distributi
      "        return Transformed(inner.base_dist, Chain([self.bijection, inner.bijection]).merge_chains())\n", "merge")
 fire("c08-chain-getitem-slice-raises", ["C08", "C03"], B + "chain.py",
      "        if isinstance(i, slice):\n", "        if not isinstance(i, slice):\n", "flatten")
+
+# ------------------------------------------------------------------------------ training loops through a stateful helper object
+_DF = "flowjax/train/data_fit.py"
+_STOP_CLASS = (
+    "class _EarlyStopping:\n    \"\"\"Tracks the best parameters and decides when patience is exhausted.\"\"\"\n\n"
+    "    def __init__(self, max_patience, initial_params):\n        self.max_patience = max_patience\n"
+    "        self.best_params = initial_params\n        self.n_updates = 0\n\n"
+    "    def update(self, val_losses, params):\n        self.n_updates += 1\n"
+    "        if val_losses[-1] == min(val_losses):\n            self.best_params = params\n            return False\n"
+    "        return count_fruitless(val_losses) {op} self.max_patience\n\n\n"
+    "def fit_to_data(")
+_STOP_OLD_TAIL = (
+    "        if losses[\"val\"][-1] == min(losses[\"val\"]):\n            best_params = params\n\n"
+    "        elif count_fruitless(losses[\"val\"]) > max_patience:\n"
+    "            loop.set_postfix_str(f\"{loop.postfix} (Max patience reached)\")\n            break\n\n"
+    "    params = best_params if return_best else params\n")
+_STOP_NEW_TAIL = (
+    "        if stopper.update(losses[\"val\"], params):\n"
+    "            loop.set_postfix_str(f\"{loop.postfix} (Max patience reached)\")\n            break\n\n"
+    "    params = stopper.best_params if return_best else params\n")
+
+
+def _stopper_variant(kind, id, op, rule=None):
+    CORPUS.append(dict(id=id, props=["C16"], expect=kind, rule=rule, edits=[
+        (_DF, "def fit_to_data(", _STOP_CLASS.replace("{op}", op)),
+        (_DF, "    best_params = params\n    opt_state = optimizer.init(params)\n",
+         "    stopper = _EarlyStopping(max_patience, params)\n    opt_state = optimizer.init(params)\n"),
+        (_DF, _STOP_OLD_TAIL, _STOP_NEW_TAIL)]))
+
+
+_stopper_variant("silent", "c16-benign-early-stopping-object", ">")
+_stopper_variant("fire", "c16-early-stopping-object-stops-one-epoch-early", ">=", "C16.")
